@@ -215,7 +215,7 @@ class C03(Check):
                   'completely and compared, event by event, with a reference interpreter; stacks are sampled by seed.')
     level_note = 'Trusted: the reference onion interpreter (written from the property text, ~90 lines).'
     required_probes = ('unique-value-class-middleware-at-two-levels', 'stack-deeper-than-64', 'three-nested-applications-with-middlewares', 'non-unique-non-reorderable-type-twice', 'two-unique-types-with-one-class-name', 'chain-consumes-every-injectable', 'same-hook-at-two-positions:static', 'same-hook-at-two-positions:one-instance', 'declared-name-provided-further-in', 'declared-name-offered',
-                       'non-response-value-through-layers', 'unique-type-twice-in-route-list', 'subclass-and-base-in-one-stack', 'closure-hooks', 'second-route-without-own-middlewares', 'render-skipped-for-response', 'no-render-layers-ran', 'unique-deduped', 'reroute-endpoint-under-middlewares', 'unique-type-instances-provide-different-names', 'three-levels',
+                       'non-response-value-through-layers', 'unique-type-twice-in-route-list', 'subclass-and-base-in-one-stack', 'closure-hooks', 'second-route-without-own-middlewares', 'render-skipped-for-response', 'no-render-layers-ran', 'unique-deduped', 'warnings-of-a-category-escalated', 'reroute-endpoint-under-middlewares', 'unique-type-instances-provide-different-names', 'three-levels',
                        'swallow-fired', 'double-fault')
 
     def gen_config(self, rng):
@@ -285,7 +285,9 @@ class C03(Check):
                 'ep_consumes': rng.choice([[], [], ['request'], ['request', '_route', '_application', '_dispatch_state']]),
                 'ep_returns': rng.choice(['dict', 'dict', 'resp', 'baseresp', 'falsyresp', 'excobj']), 'has_render': rng.random() < 0.8,
                 # a third route whose endpoint is a RerouteWSGI object (a mounted legacy WSGI application), same middlewares
-                'reroute_route': rng.random() < 0.4}
+                'reroute_route': rng.random() < 0.4,
+                # the process escalates warnings of some category to errors (-W error::UserWarning ...)
+                'warnings_error': rng.choice([None, None, 'UserWarning', 'RuntimeWarning'])}
 
     def generate(self, seed, tier):
         S = Streams(seed)
@@ -346,6 +348,15 @@ class C03(Check):
                        'ops': [{'faults': {}}, {'faults': {'o%d:T0.request' % (n - 1): {'beh': 'raise_after', 'exc': 'KeyError'}}}]}
 
     def execute(self, plan):
+        from sim.core.seams import WarningsEscalated
+        w = (plan.get('config') or {}).get('warnings_error')
+        with WarningsEscalated([w]):
+            res = self._execute_inner(plan)
+        if w:
+            res.probe('warnings-of-a-category-escalated')
+        return res
+
+    def _execute_inner(self, plan):
         res = RunResult()
         cfg = plan['config']
         K = 'C03/'
